@@ -41,9 +41,8 @@ def consensus(clades):
 def relabel(graph):
     """Relabels a consensus tree.
 
-    Takes in a DiGraph of clades, return a new DiGraph where nodes are again set of mutation, but with a different
-    interpretation. The tranformation used to change the nodes/sets is to start with the original and remove from each
-    node the data_points that appear in children clades.
+    Takes in a DiGraph of clades, return a new DiGraph on the same nodes where each node carries the attribute
+    "own_idxs": the clade with the data_points that appear in children clades removed.
     """
     result = nx.DiGraph()
 
@@ -63,8 +62,8 @@ def clean_tree(tree, data=None):
 
     idx_map = {}
 
-    for data_points, node in node_map.items():
-        idx_map[node] = sorted(data_points)
+    for old_node, node in node_map.items():
+        idx_map[node] = sorted(tree.nodes[old_node]["own_idxs"])
 
     nx.set_node_attributes(new_tree, name="idxs", values=idx_map)
 
@@ -112,14 +111,13 @@ def _relabel(node, transformed, original):
         for mutation in children:
             result.remove(mutation)
 
-    result = frozenset(result)
-
-    transformed.add_node(result)
+    # Nodes stay keyed by their (unique) clade; two clones may both have no data points of their own
+    transformed.add_node(node, own_idxs=frozenset(result))
 
     for _, children in original.out_edges(node):
-        transformed.add_edge(result, _relabel(children, transformed, original))
+        transformed.add_edge(node, _relabel(children, transformed, original))
 
-    return result
+    return node
 
 
 def roots(graph):
